@@ -9,6 +9,7 @@ R3 existence is not completion: an exists() test that lets --resume skip work te
 R4 marker last: nothing is written after the marker in the marker-creating function
 """
 import ast
+import re
 
 from ..engine.program import AnalysisError, dotted, src, walk_no_nested, call_name, enclosing_function, enclosing_stmt
 from ..engine import flow
@@ -659,6 +660,30 @@ def r7(prog, ctx, tag="R7", why=None):
                                  "when --resume recomputes a chromosome (or re-merges), rows are appended to the left-over file and appear twice"))
                     else:
                         ctx.ok(tag, "%s:%d" % (m.rel, call.lineno), "%s.%s appends to %s, truncated in the constructor" % (c.name, name, attr))
+    # append-mode opens of DATA files named by a function (not owned by an object): the same module truncates that very path
+    # expression somewhere ("w" open), otherwise left-overs of an earlier run into the same folder stay in front of the new content
+    LOGS = re.compile(r"log", re.I)
+    for m, q, f in prog.all_functions():
+        if not m.rel.startswith("src/") or m.rel in ("src/read_mapper.py",):
+            continue
+        for call in walk_no_nested(f):
+            if not (isinstance(call, ast.Call) and call_name(call) in ("open", "gzip.open") and len(call.args) > 1
+                    and isinstance(call.args[1], ast.Constant) and "a" in str(call.args[1].value)):
+                continue
+            path = call.args[0]
+            if (dotted(path) or "").startswith("self.") or LOGS.search(src(path)):
+                continue
+            n += 1
+            ptxt = src(path)
+            trunc = any(isinstance(x, ast.Call) and call_name(x) in ("open", "gzip.open") and len(x.args) > 1 and src(x.args[0]) == ptxt
+                        and isinstance(x.args[1], ast.Constant) and "w" in str(x.args[1].value)
+                        for _q2, f2 in m.functions.items() for x in walk_no_nested(f2))
+            if trunc:
+                ctx.ok(tag, "%s:%d" % (m.rel, call.lineno), "%s appends to %s, which the module also opens for writing" % (q, ptxt[:50]))
+            else:
+                ctx.fail(tag, call, q, src(call)[:90], "%s is opened in append mode and nothing in %s ever truncates it: %s" % (
+                    ptxt[:60], m.rel, why or "what an earlier (kept or killed) run into the same folder left in the file stays in front of the "
+                    "new content, and a reader that stops at the first end-of-stream marker sees only the old content"))
     ctx.floor(tag, "append-mode opens of object-owned files", n, 2)
 
 
